@@ -176,22 +176,35 @@ def r_framefile(prog, tier):
     norm = []
     for n in tl:
         alg = unparse(n.ast.target)
-        body = []
+        desc = []
         for st in n.ast.body:
-            s = unparse(st)
-            for nm in [x.id for x in ast.walk(st) if isinstance(x, ast.Name)]:
-                d = single_def(f, nm, n.id)
-                if d and d[0] != 'param' and isinstance(d[1], ast.Call) and unparse(d[1]).startswith('misc.options_dict('):
-                    s = s.replace('**%s' % nm, '**' + unparse(d[1]))
-            body.append(s.replace(alg, 'ALG'))
-        norm.append(body)
+            if isinstance(st, ast.Pass) or (isinstance(st, ast.Expr) and (
+                    isinstance(st.value, ast.Constant) or (isinstance(st.value, ast.Call) and unparse(st.value.func) in (
+                        'print', 'sys.stderr.write', 'sys.stdout.write', 'repr') or unparse(st.value.func).startswith('logging.')))):
+                continue        # no effect on the tree
+            if isinstance(st, ast.Assign) and isinstance(st.targets[0], ast.Name) and isinstance(st.value, ast.Call):
+                T = st.targets[0].id
+                c = st.value
+                opts = _starstar(c)
+                if opts and opts.isidentifier():
+                    d = single_def(f, opts, n.id)
+                    if d and d[0] != 'param' and isinstance(d[1], ast.Call):
+                        opts = unparse(d[1])
+                desc.append(('apply', unparse(c.func) == 'globals()[%s]' % alg,
+                             [unparse(a) for a in c.args] == [T], opts))
+            elif isinstance(st, ast.If) and not st.orelse and len(st.body) == 1 and isinstance(st.body[0], ast.Break):
+                nt = norm_test(st.test, True)
+                desc.append(('stop-when-dropped', nt[0] == 'none' and nt[2] is True))
+            else:
+                desc.append(('other', unparse(st)[:40]))
+        norm.append(desc)
     same = norm[0] == norm[1]
-    expected = any('globals()[ALG](tree, **misc.options_dict(args.params))' in s for s in norm[0]) and \
-        any(s.startswith('if tree is None') and 'break' in s for s in norm[0])
+    expected = norm[0] == [('apply', True, True, 'misc.options_dict(args.params)'), ('stop-when-dropped', True)]
     obs.append(Ob('R-FRAMEFILE/ONCE', f.fq, 'split and plain branch apply the transformations identically (each with '
                   'the --params options, stopping when a tree is dropped)', same and expected,
-                  'both loops: %s' % norm[0] if same and expected else 'loops differ or are not the documented '
-                  'pipeline: %s vs %s' % (norm[0], norm[1]), construct='once-trans', line=tl[0].lineno))
+                  'both loops: tree = globals()[algorithm](tree, **options_dict(args.params)); break when None'
+                  if same and expected else 'loops differ or are not the documented pipeline: %s vs %s' % (norm[0], norm[1]),
+                  construct='once-trans', line=tl[0].lineno))
     # surviving trees only are written / collected
     for n in cfg.eval_nodes():
         if n.kind == 'stmt':
@@ -456,7 +469,7 @@ ALLOWED_STATE = {
     ('transform.substitute_terminals', 'substitute_terminals'): 'terminal-file cache keyed by file name',
 }
 CONTENT = ('word', 'lemma', 'label', 'morph', 'edge')
-SET_LOOP_OK = {('grammaroutput.lopar', 'startsymbols'): 'the .start file represents a set of symbols'}
+SET_FILE_OK = {'grammaroutput.lopar': {'.start': 'the .start file represents a set of symbols'}}
 
 
 def _global_writes(f):
@@ -622,11 +635,31 @@ def r_state(prog, tier):
                              for b in n.body for x in ast.walk(b))
                 if not writes:
                     continue
-                key = (f.fq, unparse(it))
-                ok = key in SET_LOOP_OK
+                ok = False
+                why_ok = ''
+                if f.fq in SET_FILE_OK:
+                    # every write in the loop goes to the stream opened for the exempted file suffix
+                    targets = set()
+                    for b2 in n.body:
+                        for x in ast.walk(b2):
+                            if isinstance(x, ast.Call) and unparse(x.func) == 'print':
+                                targets |= set(unparse(k.value) for k in x.keywords if k.arg == 'file')
+                            elif isinstance(x, ast.Call) and unparse(x.func).endswith('.write'):
+                                targets.add(unparse(x.func.value))
+                    suffixes = set()
+                    for w in walk_own(f.node):
+                        if isinstance(w, ast.With):
+                            for item in w.items:
+                                if item.optional_vars is not None and unparse(item.optional_vars) in targets:
+                                    for c2 in ast.walk(item.context_expr):
+                                        if isinstance(c2, ast.Constant) and isinstance(c2.value, str) and c2.value.startswith('.'):
+                                            suffixes.add(c2.value)
+                    if suffixes and suffixes <= set(SET_FILE_OK[f.fq]):
+                        ok = True
+                        why_ok = 'SET table: %s files %s' % (f.fq, sorted(suffixes)) + ' - ' + SET_FILE_OK[f.fq][sorted(suffixes)[0]]
                 obs.append(Ob('R-STATE/G5', f.fq, 'output lines are not written in set (hash) order: `for ... in %s`'
-                              % unparse(it), ok, 'SET table: ' + SET_LOOP_OK[key] if ok else
-                              'iteration over a set decides the order of written lines', construct='g5:' + unparse(it),
+                              % unparse(it), ok, why_ok if ok else
+                              'iteration over a set decides the order of written lines', construct='g5:' + f.fq,
                               line=n.lineno))
     # ---- G6 writer purity
     obs.extend(_writer_purity(prog))
